@@ -136,6 +136,10 @@ func (m *lifecycleManager) updateCapabilities() {
 		}
 	}
 
+	// Concurrent initialize requests recompute the capabilities at the same time.
+	m.mu.Lock()
+	defer m.mu.Unlock()
+
 	// Preserve existing experimental features
 	if exp, ok := m.capabilities["experimental"]; ok {
 		capMap["experimental"] = exp
@@ -208,6 +212,8 @@ func (m *lifecycleManager) saveSessionState(session Session, protocolVersion str
 
 // buildInitializeResponse creates the initialization response
 func (m *lifecycleManager) buildInitializeResponse(protocolVersion string) InitializeResult {
+	m.mu.RLock()
+	defer m.mu.RUnlock()
 	return InitializeResult{
 		ProtocolVersion: protocolVersion,
 		ServerInfo: Implementation{
